@@ -8,7 +8,9 @@ Tie X (op `params`): directories of 1..5 model files in two languages with
 random import graphs (cycles, self imports, globs over a directory), loaded by
 string / string-with-file-name / file, with every provider family that follows
 imports (ImportURI glob, ImportURI search path, GlobalRepo patterns with and
-without `project_root`, grammar RREL `+m:`), with and without the metamodel's
+without `project_root`, `project_root` in every spelling: relative to the cwd, with `.` / `..`
+components, trailing separators, other directories, non-path values; loads from
+another cwd; grammar RREL `+m:`), with and without the metamodel's
 global repository (optionally pre-filled by an earlier load with other
 parameters).  Observation: exception class, and `_tx_model_params` of every
 model of the load — at the end, inside the pre-reference-resolution callback
@@ -42,7 +44,19 @@ Ref: 'ref' target=[Item:ID%s];
 EXT = {0: ".c27m", 1: ".c27mb"}
 KW = {0: ("import", "item"), 1: ("use", "thing")}
 NAMEPOOL = ["alpha", "beta", "gamma", "Alpha", "x_1", "ünï", "with space", "", "alph", "Project_Root"]
-VALUES = [0, 1, -7, "v", "", None, True, [1, "a"], {"k": [None]}, 3.5, "é"]
+VALUES = [0, 1, -7, "v", "", None, True, [1, "a"], {"k": [None]}, 3.5, "é",
+          # values a "tidying" call site could rewrite (path normalisation, strip, case folding)
+          "p/../q", "dir/", " v ", "V"]
+# Spellings of the built-in parameter `project_root`.  `$TMP` = the case's directory (absolute), `$REL` = the same
+# directory relative to the current working directory of the load.  Second component: the sub-directory of the case
+# the value denotes ("" = the case's directory itself, None = no directory of the case).
+ROOT_FORMS = [
+    ("$TMP", ""), ("$TMP/", ""), ("$TMP/.", ""), ("$TMP/sub/..", ""), ("$TMP//", ""), ("$TMP/./sub/../", ""),
+    ("$REL", ""), ("$REL/", ""), ("$REL/.", ""), ("$REL/sub/..", ""), ("$REL/sub/../.", ""),
+    ("$TMP/sub", "sub"), ("$TMP/sub/", "sub"), ("$TMP/./sub", "sub"), ("$REL/sub", "sub"), ("$REL/sub/.", "sub"),
+    ("/nowhere", None), ("nowhere/..", None), ("", None),
+]
+ROOT_DENOTES = dict(ROOT_FORMS)
 # names bound by the explicit formals of model_from_str / model_from_file never reach **kwargs
 RESERVED = ["file_name", "debug", "encoding", "pre_ref_resolution_callback", "model_str", "self"]
 PROVIDERS = ["none", "glob", "glob_fqn", "search", "globalrepo", "globalrepo_fqn", "rrel_m"]
@@ -213,14 +227,66 @@ def file_text(case, tmp, i):
     return "\n".join(lines) + "\n"
 
 
-def value_text(v, tmp=None):
-    if tmp is not None and isinstance(v, str) and v.startswith(tmp):
-        v = "$TMP" + v[len(tmp):]
+def value_text(v, tmp=None, back=None):
+    """canonical text of a parameter value; `back` maps the real spelling of a `$TMP…` / `$REL…` value of the case to
+    its spec, so that a value that was forwarded unchanged reads exactly as the case wrote it and a rewritten one
+    (normalised, made absolute) does not"""
+    if isinstance(v, str):
+        if back and v in back:
+            v = back[v]
+        elif tmp is not None and v.startswith(tmp):
+            v = "$TMP" + v[len(tmp):]
     return json.dumps(v, sort_keys=True, ensure_ascii=True)
 
 
-def real_kwargs(pairs, tmp):
-    return {k: (tmp + v[4:] if isinstance(v, str) and v.startswith("$TMP") else v) for k, v in pairs}
+def real_value(v, tmp, rel=None):
+    if isinstance(v, str) and v.startswith("$TMP"):
+        return tmp + v[4:]
+    if isinstance(v, str) and v.startswith("$REL"):
+        return (rel if rel is not None else tmp) + v[4:]
+    return v
+
+
+def real_kwargs(pairs, tmp, rel=None):
+    return {k: real_value(v, tmp, rel) for k, v in pairs}
+
+
+def back_map(case, tmp, rel):
+    out = {}
+    for pairs in (case["kwargs"], (case.get("preload") or {}).get("kwargs", [])):
+        for _, v in pairs:
+            if isinstance(v, str) and v[:4] in ("$TMP", "$REL"):
+                out.setdefault(real_value(v, tmp, rel), v)
+    return out
+
+
+def root_dir(pairs):
+    """(given, dir): is `project_root` among the keyword arguments, and which directory of the case its value
+    denotes ("" / "sub"; None = none of them, or not a path at all)"""
+    for k, v in pairs:
+        if k == "project_root":
+            if isinstance(v, str) and v in ROOT_DENOTES:
+                return True, ROOT_DENOTES[v]
+            if isinstance(v, str) and v[:4] in ("$TMP", "$REL"):
+                d = os.path.normpath("/T" + v[4:])
+                return True, {"/T": "", "/T/sub": "sub"}.get(d)
+            return True, None
+    return False, None
+
+
+def gr_hit(case, pairs=None):
+    """file ids the GlobalRepo pattern of the case denotes once it is rooted (absolute pattern, or relative pattern
+    joined with the given project_root)"""
+    gr = case["gr"]
+    if not gr["rel"]:
+        d = gr["dir"]
+    else:
+        _, base = root_dir(case["kwargs"] if pairs is None else pairs)
+        if base is None:
+            return []
+        d = os.path.normpath(os.path.join(base, gr["dir"]))
+        d = "" if d == "." else d
+    return [j for j in on_disk(case) if case["files"][j]["dir"] == d]
 
 
 # --------------------------------------------------------------------------
@@ -249,7 +315,10 @@ class Prop(Check):
     THOROUGH_CASES = 10000
     PROCS_THOROUGH = 4  # shared machine while the framework is being built
     RULE = ("declared names: project_root + random subset of 10 names (unicode, empty, with space, case variants, prefixes); "
-            "keyword arguments: 0..4 names (35% of the cases with an undeclared one) with values of 11 shapes; entry "
+            "keyword arguments: 0..4 names (35% of the cases with an undeclared one) with values of 15 shapes (incl. strings a "
+            "call site could normalise); the built-in project_root in 19 spellings (absolute / relative to the cwd, `.` and "
+            "`..` components, trailing / doubled separators, the case's directory or its sub-directory, no directory) and, "
+            "where no relative pattern is joined with it, arbitrary values; 40% of the loads from another cwd; entry "
             "model_from_file / model_from_str with file name / model_from_str; 1..5 files in two directories and two "
             "languages (multi-metamodel) with random import graphs incl. cycles, self imports, directory globs; provider "
             "none / ImportURI glob (PlainName, FQN) / ImportURI search path / GlobalRepo (PlainName, FQN; absolute or "
@@ -328,13 +397,26 @@ class Prop(Check):
                 "provider": provider, "key": rng.choice(["*.*", "Ref.target", "*.target", "Ref.*"]),
                 "files": files, "multi": multi, "mm_repo": rng.chance(0.3), "entry": "file", "cb": False, "preload": None,
                 "gr": None}
+        # the built-in parameter project_root: every spelling of a directory (absolute / relative to the cwd, with
+        # `.` / `..` components, trailing and doubled separators), directories that do not exist, and — where no
+        # relative pattern is joined with it — values that are no paths at all
+        here = [s for s, d in ROOT_FORMS if d == ""]
+        below = [s for s, d in ROOT_FORMS if d == "sub"]
+        nowhere = [s for s, d in ROOT_FORMS if d is None]
         if provider.startswith("globalrepo"):
             rel = rng.chance(0.5)
             case["gr"] = {"rel": rel, "dir": rng.choice(["sub", "sub", ""])}
-            if rel and rng.chance(0.7) and not any(k == "project_root" for k, _ in kwargs):
-                kwargs.insert(rng.below(len(kwargs) + 1), ["project_root", "$TMP"])
-        elif rng.chance(0.15) and not any(k == "project_root" for k, _ in kwargs):
-            kwargs.insert(rng.below(len(kwargs) + 1), ["project_root", rng.choice(["$TMP", "/nowhere", ""])])
+            if rel and rng.chance(0.8):
+                root = rng.choice(rng.weighted([(here, 14), (below, 4), (nowhere, 2)]))
+                kwargs.insert(rng.below(len(kwargs) + 1), ["project_root", root])
+            elif not rel and rng.chance(0.6):
+                root = rng.choice(rng.weighted([(here, 5), (below, 2), (nowhere, 2), (VALUES, 3)]))
+                kwargs.insert(rng.below(len(kwargs) + 1), ["project_root", root])
+        elif rng.chance(0.3):
+            root = rng.choice(rng.weighted([(here, 5), (below, 2), (nowhere, 2), (VALUES, 3)]))
+            kwargs.insert(rng.below(len(kwargs) + 1), ["project_root", root])
+        # current working directory of the load: the harness' own, or an empty directory below the case's directory
+        case["cwd"] = "cwd" if rng.chance(0.4) else None
         # faults
         r = rng.below(100)
         if r < 3:
@@ -352,7 +434,9 @@ class Prop(Check):
         if case["mm_repo"] and lang0 and rng.chance(0.5):
             pre_kw = [[k, rng.choice(VALUES)] for k in rng.subset(defs, 0.5)]
             if case["gr"] and case["gr"]["rel"]:
-                pre_kw.append(["project_root", "$TMP"])
+                pre_kw.append(["project_root", rng.choice(here)])
+            elif rng.chance(0.3):
+                pre_kw.append(["project_root", rng.choice(here + below + nowhere)])
             case["preload"] = {"file": rng.choice(lang0), "kwargs": pre_kw}
         return case
 
@@ -390,8 +474,14 @@ class Prop(Check):
 
         tmp = tempfile.mkdtemp(prefix="c27_", dir=SCRATCH)
         registered = False
+        old_cwd = os.getcwd()
         try:
             os.makedirs(os.path.join(tmp, "sub"))
+            if case.get("cwd"):
+                os.makedirs(os.path.join(tmp, case["cwd"]))  # empty: relative patterns find nothing there
+                os.chdir(os.path.join(tmp, case["cwd"]))
+            rel = os.path.relpath(tmp, os.getcwd())
+            back = back_map(case, tmp, rel)
             for i in on_disk(case):
                 with open(fpath(case, tmp, i), "w", encoding="utf-8") as fh:
                     fh.write(file_text(case, tmp, i))
@@ -406,7 +496,7 @@ class Prop(Check):
                 if not hasattr(model, "_tx_model_params"):
                     return None
                 mp = model._tx_model_params
-                return [[k, value_text(mp[k], tmp)] for k in mp]
+                return [[k, value_text(mp[k], tmp, back)] for k in mp]
 
             def proc(obj):
                 proc_seen.append([fid(obj), snapshot(obj)])
@@ -429,7 +519,7 @@ class Prop(Check):
             out = {}
             if case["preload"]:
                 try:
-                    mm.model_from_file(fpath(case, tmp, case["preload"]["file"]), **real_kwargs(case["preload"]["kwargs"], tmp))
+                    mm.model_from_file(fpath(case, tmp, case["preload"]["file"]), **real_kwargs(case["preload"]["kwargs"], tmp, rel))
                     out["preload"] = "ok"
                 except Exception as e:
                     out["preload"] = type(e).__name__
@@ -441,7 +531,7 @@ class Prop(Check):
             def cb(other):
                 cb_seen.append([fid(other), snapshot(other)])
 
-            kwargs = real_kwargs(case["kwargs"], tmp)
+            kwargs = real_kwargs(case["kwargs"], tmp, rel)
             main_path = fpath(case, tmp, 0)
             main_text = file_text(case, tmp, 0)
             extra = {"pre_ref_resolution_callback": cb} if case["cb"] else {}
@@ -479,6 +569,7 @@ class Prop(Check):
             out["cb"] = sorted(cb_seen, key=lambda x: x[0])
             return out
         finally:
+            os.chdir(old_cwd)
             if registered:
                 textx.clear_language_registrations()
             shutil.rmtree(tmp, ignore_errors=True)
@@ -493,8 +584,7 @@ class Prop(Check):
         elif prov == "rrel_m":
             p = {"k": "rrelM"}
         else:
-            p = {"k": "globalRepo", "rel": case["gr"]["rel"],
-                 "hit": [j for j in on_disk(case) if case["files"][j]["dir"] == case["gr"]["dir"]]}
+            p = {"k": "globalRepo", "rel": case["gr"]["rel"], "hit": gr_hit(case)}
         files = [{"stmts": [denoted(case, i, imp) for imp in f["imports"]], "hasRef": f["hasRef"],
                   "broken": bool(f.get("broken"))} for i, f in enumerate(case["files"])]
         repo0 = obs.get("repo0", [])
@@ -577,10 +667,9 @@ class Prop(Check):
         gr = case.get("gr")
         if not gr:
             return False
-        has_root = any(k == "project_root" and v == "$TMP" for k, v in case["kwargs"])
-        if gr["rel"] and not has_root:
+        if gr["rel"] and not root_dir(case["kwargs"])[0]:
             return True
-        return not any(case["files"][j]["dir"] == gr["dir"] for j in on_disk(case))
+        return not gr_hit(case)
 
     def nontrivial(self, case, obs):
         declared = set(case["defs"]) | {"project_root"}
@@ -599,6 +688,8 @@ class Prop(Check):
             yield dict(case, multi=False, files=[dict(f, lang=0) for f in case["files"]])
         if case.get("cb"):
             yield dict(case, cb=False)
+        if case.get("cwd"):
+            yield dict(case, cwd=None)
         for i in range(len(case["kwargs"])):
             yield dict(case, kwargs=case["kwargs"][:i] + case["kwargs"][i + 1:])
         n = len(case["files"])
